@@ -217,6 +217,65 @@ class _NullCtx(object):
         pass
 
 
+def check_map(ctx, hszinc, zoneinfo, zones, phase):
+    """The name <-> tz mapping is one-to-one, and every mapped zone is written under its own name."""
+    feats = [] if phase == 'fresh' else [phase]
+    tzmap = zoneinfo.get_tz_map()
+    rmap = zoneinfo.get_tz_rmap()
+    if phase == 'fresh':
+        ctx.count('mapped zones', len(zones))
+    ctx.count('map integrity sweeps')
+    seen = {}
+    for Z in zones:
+        ctx.case('map', Z, phase)
+
+        tz = zoneinfo.timezone(Z)
+        full = tz.zone
+        cands = tzref.candidates(Z)
+        if full not in cands:
+            ctx.violation({'part': 'map', 'kind': 'zone', 'symptom': 'maps-to-other-zone', 'features': feats},
+                          'Haystack zone %r is mapped to %r; zones of that name: %r' % (Z, full, cands), {'zone': Z})
+        if full in seen:
+            ctx.violation({'part': 'map', 'kind': 'zone', 'symptom': 'not-injective', 'features': feats},
+                          '%r and %r both map to %r' % (Z, seen[full], full), {'zone': Z})
+        seen[full] = Z
+        if rmap.get(tzmap[Z]) != Z:
+            ctx.violation({'part': 'map', 'kind': 'zone', 'symptom': 'rmap-not-inverse', 'features': feats},
+                          'rmap[map[%r]] = %r' % (Z, rmap.get(tzmap[Z])), {'zone': Z})
+        dt = pytz.utc.localize(datetime.datetime(2020, 1, 1)).astimezone(tz)
+        try:
+            nm = zoneinfo.timezone_name(dt)
+        except Exception as e:
+            nm = 'raised %r' % (e,)
+        for mname, mode in (('zinc', hszinc.MODE_ZINC), ('json', hszinc.MODE_JSON)):
+            try:
+                text = hszinc.dump_scalar(dt, mode=mode, version='3.0')
+            except Exception as e:   # noqa
+                text = 'raised %r' % (e,)
+            if not text.rstrip('"').endswith(' ' + Z):
+                ctx.violation({'part': 'map', 'format': mname, 'kind': 'zone', 'symptom': 'written-under-another-name', 'features': feats},
+                              'a date-time of zone %r is written as %r' % (Z, text), {'zone': Z})
+        if nm != Z:
+            ctx.violation({'part': 'map', 'kind': 'zone', 'symptom': 'name-roundtrip', 'features': feats},
+                          'timezone_name(timezone(%r)) = %r' % (Z, nm), {'zone': Z})
+    if len(rmap) != len(tzmap):
+        ctx.violation({'part': 'map', 'kind': 'zone', 'symptom': 'not-injective', 'features': feats},
+                      'map has %d names, reverse map %d' % (len(tzmap), len(rmap)), {})
+    # unknown names must be refused with ValueError
+    for bad in ('Nowhere', 'utc', '', 'America/New_York', 'New York'):
+        ctx.case('map-unknown', bad)
+        try:
+            zoneinfo.timezone(bad)
+            if bad not in tzmap:
+                ctx.violation({'part': 'map', 'kind': 'zone', 'symptom': 'unknown-accepted', 'features': feats},
+                              'timezone(%r) accepted' % bad, {'zone': bad})
+        except ValueError:
+            pass
+        except Exception as e:
+            ctx.violation({'part': 'map', 'kind': 'zone', 'symptom': 'unknown-raises:' + type(e).__name__, 'features': feats},
+                          'timezone(%r) raised %r' % (bad, e), {'zone': bad})
+
+
 def run_shard(spec, ctx):
     import hszinc
     from hszinc import zoneinfo
@@ -225,50 +284,33 @@ def run_shard(spec, ctx):
         return cold_start(spec, ctx)
     zones = hs.mapped_zones()
     if spec['part'] == 'map':
-        tzmap = zoneinfo.get_tz_map()
-        rmap = zoneinfo.get_tz_rmap()
-        ctx.count('mapped zones', len(zones))
-        seen = {}
-        for Z in zones:
-            ctx.case('map', Z)
-            tz = zoneinfo.timezone(Z)
-            full = tz.zone
-            cands = tzref.candidates(Z)
-            if full not in cands:
-                ctx.violation({'part': 'map', 'kind': 'zone', 'symptom': 'maps-to-other-zone', 'features': []},
-                              'Haystack zone %r is mapped to %r; zones of that name: %r' % (Z, full, cands), {'zone': Z})
-            if full in seen:
-                ctx.violation({'part': 'map', 'kind': 'zone', 'symptom': 'not-injective', 'features': []},
-                              '%r and %r both map to %r' % (Z, seen[full], full), {'zone': Z})
-            seen[full] = Z
-            if rmap.get(tzmap[Z]) != Z:
-                ctx.violation({'part': 'map', 'kind': 'zone', 'symptom': 'rmap-not-inverse', 'features': []},
-                              'rmap[map[%r]] = %r' % (Z, rmap.get(tzmap[Z])), {'zone': Z})
-            dt = pytz.utc.localize(datetime.datetime(2020, 1, 1)).astimezone(tz)
-            try:
-                nm = zoneinfo.timezone_name(dt)
-            except Exception as e:
-                nm = 'raised %r' % (e,)
-            if nm != Z:
-                ctx.violation({'part': 'map', 'kind': 'zone', 'symptom': 'name-roundtrip', 'features': []},
-                              'timezone_name(timezone(%r)) = %r' % (Z, nm), {'zone': Z})
-        if len(rmap) != len(tzmap):
-            ctx.violation({'part': 'map', 'kind': 'zone', 'symptom': 'not-injective', 'features': []},
-                          'map has %d names, reverse map %d' % (len(tzmap), len(rmap)), {})
-        # unknown names must be refused with ValueError
-        for bad in ('Nowhere', 'utc', '', 'America/New_York', 'New York'):
-            ctx.case('map-unknown', bad)
-            try:
-                zoneinfo.timezone(bad)
-                if bad not in tzmap:
-                    ctx.violation({'part': 'map', 'kind': 'zone', 'symptom': 'unknown-accepted', 'features': []},
-                                  'timezone(%r) accepted' % bad, {'zone': bad})
-            except ValueError:
-                pass
-            except Exception as e:
-                ctx.violation({'part': 'map', 'kind': 'zone', 'symptom': 'unknown-raises:' + type(e).__name__, 'features': []},
-                              'timezone(%r) raised %r' % (bad, e), {'zone': bad})
-        ctx.sample({'map': {z: tzmap[z] for z in zones[:5]}})
+        check_map(ctx, hszinc, zoneinfo, zones, 'fresh')
+        # zone labels nothing writes but a peer might send: other spellings of the fixed-offset zones, other cases, full
+        # names. Whether each is taken or refused is not judged here - that the mapping is still one-to-one afterwards is
+        names0 = sorted(zoneinfo.get_tz_map())
+        odd = ['GMT0', 'UTC0', 'GMT+0', 'GMT-0', 'GMT-00', 'GMT+05', 'GMT-010', 'GMT+5:00', 'UTC+5', 'Etc/GMT+5', 'Etc/UTC', 'Z', 'gmt', 'Gmt+5',
+               'utc', 'Utc', 'new_york', 'NEW_YORK', 'America/New_York', 'New_York ', ' New_York', 'Newyork', 'GMT+15', 'GMT-15', 'GMT+5 ',
+               'Rel', 'UCT', 'Zulu', 'Universal', 'Greenwich', 'GMT+05:30', 'Kolkata/', 'Asia/Kolkata', 'Calcutta']
+        for name in odd:
+            ctx.case('odd-zone-label', name)
+            for how, fn in (('timezone()', lambda: zoneinfo.timezone(name)),
+                            ('zinc scalar', lambda: hszinc.parse_scalar('2020-06-01T00:00:00Z ' + name, mode=hszinc.MODE_ZINC, version='3.0')),
+                            ('zinc -05:00', lambda: hszinc.parse_scalar('2020-06-01T00:00:00-05:00 ' + name, mode=hszinc.MODE_ZINC, version='3.0')),
+                            ('zinc grid', lambda: hszinc.parse('ver:"3.0"\na\n2020-06-01T00:00:00Z ' + name + '\n', mode=hszinc.MODE_ZINC)),
+                            ('json', lambda: hszinc.parse({'meta': {'ver': '3.0'}, 'cols': [{'name': 'a'}],
+                                                           'rows': [{'a': 't:2020-06-01T00:00:00Z ' + name}]}, mode=hszinc.MODE_JSON)),
+                            ('json -05:00', lambda: hszinc.parse_scalar('t:2020-06-01T00:00:00-05:00 ' + name, mode=hszinc.MODE_JSON, version='3.0'))):
+                try:
+                    fn()
+                    ctx.count('odd zone labels taken')
+                except Exception:
+                    ctx.count('odd zone labels refused')
+        if sorted(zoneinfo.get_tz_map()) != names0:
+            extra = sorted(set(zoneinfo.get_tz_map()) ^ set(names0))
+            ctx.violation({'part': 'map', 'kind': 'zone', 'symptom': 'map-changed-by-reading', 'features': ['after-odd-labels']},
+                          'the set of Haystack zone names changed after reading odd zone labels: %r' % (extra[:8],), {'zone': 'odd-labels'})
+        check_map(ctx, hszinc, zoneinfo, zones, 'after-odd-labels')
+        ctx.sample({'map': {z: zoneinfo.get_tz_map()[z] for z in zones[:5]}, 'odd_labels': odd[:6]})
         return
     if spec['part'] == 'zones':
         i, n = spec['slice']
